@@ -31,6 +31,8 @@ PANIC_OK = {
     ('src/util/special_prefix_interner.rs', 'try_from_usize', 'unimplemented'): 'string_interner calls Symbol conversions only from its own backends; this backend never converts its symbols',
     ('src/util/special_prefix_interner.rs', 'to_usize', 'unimplemented'): 'string_interner calls Symbol conversions only from its own backends; this backend never converts its symbols',
     ('src/compilation_scope.rs', 'from_parent', 'panic'): 'recursion cell of a function scope is created by from_parent itself two lines above (cell kind is Recourse by construction)',
+    ('src/compilation_scope.rs', 'add_static_func', 'unreachable'): 'ForwardRef.cell_idx is the index returned by cells.ipush(Cell::Variable{..}) in add_forward_func of the same scope (its only writer)',
+    ('src/compilation_scope.rs', 'require_forwards', 'unreachable'): 'ForwardRef.cell_idx is the index returned by cells.ipush(Cell::Variable{..}) in add_forward_func of the scope that owns the forward reference',
     ('src/compilation_scope.rs', 'get_item', 'unreachable'): 'variables map only ever stores indices of Cell::Variable (add_variable / add_parameter are the only writers)',
     ('src/compilation_scope.rs', 'type_of', 'unreachable'): 'XExpr::Dummy is only created at run time by eval_func_with_values; compile never produces it',
     ('src/xtype.rs', 'resolve_bind', 'unreachable'): 'XTail occurs only inside the field types of a compound; every resolve_bind on field types passes the compound as tail, and (after the fix) nested tails inherit it',
@@ -45,6 +47,8 @@ INDEX_OK = {
     ('compile', 'OverloadWithForwardReq'): 'get_item returns Overload(v) only for a non-empty v (it is built by pushing at least one overload of the name) and more than one was rejected just above',
     ('compile', 'XCompoundFieldSpec'): 'the index comes from spec.indices of the same spec (name -> position table built together with fields)',
     ('forward_ref', 'ForwardRef'): 'ref_idx was produced as forwards.len() when the forward reference was pushed in the scope at that height',
+    ('require_forwards', 'ForwardRef'): 'ref_idx was produced as forwards.len() when the forward reference was pushed in the scope at that height (same argument as forward_ref)',
+    ('require_forwards', 'Cell'): 'ForwardRef.cell_idx was returned by cells.ipush of the scope that owns the forward reference',
     ('get_item', 'Cell'): 'the variables map stores only indices returned by cells.ipush of the same scope',
     ('type_of', 'XType'): 'Member(idx) on a tuple is built only by compile after idx < types.len() (TupleIndexOutOfBounds otherwise)',
     ('type_of', 'XCompoundFieldSpec'): 'Member / MemberValue / MemberOptValue indices are produced by spec.find on the same compound spec in compile',
